@@ -49,10 +49,12 @@ type C15Req struct {
 }
 
 type C15Case struct {
-	Reqs  []C15Req `json:"reqs"`
-	Cuts  []int    `json:"cuts,omitempty"`
-	End   string   `json:"end"` // park | eof
-	Queue int      `json:"queue"`
+	// Shared: the handler adapter (one xhttp.Handler value) also serves another connection, which was used first
+	Shared bool     `json:"shared,omitempty"`
+	Reqs   []C15Req `json:"reqs"`
+	Cuts   []int    `json:"cuts,omitempty"`
+	End    string   `json:"end"` // park | eof
+	Queue  int      `json:"queue"`
 }
 
 var c15Methods = []string{"GET", "GET", "POST", "PUT", "DELETE", "OPTIONS", "HEAD"}
@@ -152,6 +154,7 @@ func genC15(t *rapid.T) C15Case {
 	}
 	c.End = rapid.SampledFrom([]string{"park", "park", "eof"}).Draw(t, "end")
 	c.Queue = rapid.SampledFrom([]int{0, 0, 16}).Draw(t, "queue")
+	c.Shared = rapid.IntRange(0, 4).Draw(t, "shared") == 0
 	return c
 }
 
@@ -230,6 +233,11 @@ func runC15(c C15Case) (out core.Outcome) {
 	var seen []c15Seen
 	var handlerPanics []string
 	handler := http.HandlerFunc(func(w http.ResponseWriter, r *http.Request) {
+		if r.RequestURI == "/warmup-on-the-other-connection" {
+			w.Header().Set("Content-Length", "2")
+			_, _ = w.Write([]byte("ok"))
+			return
+		}
 		mu.Lock()
 		i := len(seen)
 		s := c15Seen{method: r.Method, uri: r.RequestURI, proto: r.Proto, headers: hdrMultiset(r.Header, func(k string) bool { return strings.HasPrefix(k, "X-") || k == "Accept" })}
@@ -322,9 +330,26 @@ func runC15(c C15Case) (out core.Outcome) {
 	} else {
 		cls.Add("channel:sync")
 	}
+	adapter := xhttp.Handler(handler)
+	var otherTr *mock.Transport
+	if c.Shared {
+		// another connection served by the same handler value, used before this one and still open
+		cls.Add("handler-shared-with-another-connection")
+		otherTr = mock.NewTransport(nil, false, nil)
+		opl := netty.NewPipeline()
+		och := factory(2, bgCtx, opl, otherTr, &mock.InlineExec{})
+		opl.AddLast(xhttp.ServerCodec(), adapter)
+		opl.ServeChannel(och)
+		otherTr.Feed([]byte("GET /warmup-on-the-other-connection HTTP/1.1\r\nHost: example.com\r\n\r\n"))
+		if !otherTr.WaitReadParked(15 * time.Second) {
+			out.Inconclusive = "other connection: read loop neither parked nor closed within 15 s"
+			return
+		}
+		defer och.Close(nil)
+	}
 	pl := netty.NewPipeline()
 	ch := factory(1, bgCtx, pl, tr, ex)
-	pl.AddLast(xhttp.ServerCodec(), recorder, xhttp.Handler(handler))
+	pl.AddLast(xhttp.ServerCodec(), recorder, adapter)
 	_ = handlerPanics
 	pl.ServeChannel(ch)
 	defer func() {
@@ -487,6 +512,13 @@ func runC15(c C15Case) (out core.Outcome) {
 		}
 	}
 
+	if otherTr != nil {
+		ob, _ := otherTr.Accepted()
+		if n := bytes.Count(ob, []byte("HTTP/1.")); n != 1 || !bytes.HasSuffix(ob, []byte("\r\n\r\nok")) {
+			out.Violation = core.Viol("C15/response-on-wrong-connection", "the other connection served by the same handler value received %d bytes holding %d responses; it asked for one (%.120q)", len(ob), n, ob)
+			return
+		}
+	}
 	// --- the wire
 	wireBytes, flushed := tr.Accepted()
 	if flushed != len(wireBytes) {
